@@ -3,8 +3,10 @@
   writable: the main induction over `wr` (serialiser) and `rbWalk` (dedup).
 
   Context of a subtree: `A` = the top frame of dedup's name stack above it (all declarations of
-  the ancestors, in order), `A'` = the same after the removals; the serialiser's top frames are
-  `(xml) :: A` and `(xml) :: A'`.
+  the ancestors the call has walked through, in order), `A'` = the same after the removals; the
+  serialiser's top frames are `X ++ A` and `X ++ A'`, where `X` is what the serialiser has on its
+  stack above the node the call was made on (`[(xml)]` for a root call; `(xml)` plus the
+  declarations above the node for an inner call, Lemmas/ScopeInner.lean).
 -/
 import XotModel.Lemmas.ScopeKeep
 import XotModel.Lemmas.Scope
